@@ -1480,7 +1480,7 @@ pub fn validate_base10_text<'a>(
   text_value: &str,
 ) -> Result<bool, String> {
   // Validate format: 0 or -?[1-9][0-9]*
-  if !text_value.chars().all(|c| c.is_ascii_digit() || c == '-') {
+  if text_value.is_empty() || !text_value.chars().all(|c| c.is_ascii_digit() || c == '-') {
     return Ok(false);
   }
 
